@@ -231,7 +231,9 @@ impl<'a> Parser<'a> {
                                 (true, _) => include.to_path_buf(),
                                 (false, Some(path)) => path
                                     .parent()
-                                    .expect("file has to have parent folder")
+                                    .ok_or(ParseError::Message(
+                                        "Relative $INCLUDE needs a zone file path with a parent folder",
+                                    ))?
                                     .join(include),
                                 (false, None) => {
                                     return Err(ParseError::Message(
